@@ -348,6 +348,35 @@ func extractC02(c *Ctx) error {
 		return fmt.Errorf("additionalPatchChecks / OutgoingTxBatchExecuted: `b.BatchTimeout <= …EthBlockHeight` refusal not recognised")
 	}
 
+	// the handler path converts no claim amount partially (.Int64() / .Uint64() panic outside their range, the
+	// end-blocker's recover swallows the panic after the claim was marked observed)
+	hf, err := c.Parse("x/skyway/keeper/attestation_handler.go")
+	if err != nil {
+		return err
+	}
+	partial := 0
+	var partialSites []string
+	ast.Inspect(hf, func(n ast.Node) bool {
+		ce, ok := n.(*ast.CallExpr)
+		if !ok {
+			return true
+		}
+		se, ok := ce.Fun.(*ast.SelectorExpr)
+		if !ok || (se.Sel.Name != "Int64" && se.Sel.Name != "Uint64") || len(ce.Args) != 0 {
+			return true
+		}
+		x := strings.ToLower(c.Src(se.X))
+		if strings.Contains(x, "amount") || strings.Contains(x, "coin") || strings.Contains(x, "toburn") {
+			partial++
+			partialSites = append(partialSites, c.Src(ce))
+		}
+		return true
+	})
+	for _, ce := range Calls(obe.Body, "Int64") {
+		partial++
+		partialSites = append(partialSites, c.Src(ce))
+	}
+
 	c.P("(* x/skyway/types/genesis.go: AttestationVotesPowerThreshold = %s;", thr)
 	c.P("   x/skyway/keeper/attestation.go TryAttestation: requiredPower = Threshold*total quo %s, fires when attestationPower.%s(requiredPower) *)", den, cmp)
 	c.P("Definition threshold_num : Z := %s.", num)
@@ -365,6 +394,8 @@ func extractC02(c *Ctx) error {
 	c.P("Definition creator_bound_deposit : bool := %v.", creatorBound["SendToPalomaClaim"])
 	c.P("Definition creator_bound_batch : bool := %v.", creatorBound["BatchSendToRemoteClaim"])
 	c.P("Definition creator_bound_sale : bool := %v.", creatorBound["LightNodeSaleClaim"])
+	c.P("(* attestation_handler.go / OutgoingTxBatchExecuted: partial numeric conversions (.Int64() / .Uint64()) of claim amounts: %v *)", partialSites)
+	c.P("Definition handler_amount_partial_conversions : Z := %d.", partial)
 	c.P("(* stores of the oracle opened with the chain reference id of the call (attestation.go getters/setters, overrideNonce, UpdateValidatorNoncesToLatest) *)")
 	c.P("Definition per_chain_store_sites : Z := %d.", len(sites))
 	c.P("(* pruneAttestations *)")
@@ -375,6 +406,7 @@ func extractC02(c *Ctx) error {
 	c.Info("events_to_keep", keep)
 	c.Info("tally_aborts_on_error", abort)
 	c.Info("vote_requires_bonded", bondedReq)
+	c.Info("handler_amount_partial_conversions", partial)
 	c.Info("creator_bound", fmt.Sprintf("deposit=%v batch=%v sale=%v", creatorBound["SendToPalomaClaim"], creatorBound["BatchSendToRemoteClaim"], creatorBound["LightNodeSaleClaim"]))
 	c.Info("per_chain_store_sites", len(sites))
 	return nil
